@@ -239,6 +239,121 @@ for cell, res in zip(cells, results):
     if len(samples) < 3:
         samples.append({'listener': l, 'connector': c, 'destination': dk, 'datagrams': [(w, s, v) for w, s, v, _ in res][:4]})
 
+# ---- several destinations inside ONE association: every datagram names its own destination (SOCKS5 UDP associate;
+#      CONNECT 0.0.0.0:0 with Proxy-Protocol: udp), so nothing may be remembered from one datagram to the next:
+#      all ordered triples over {localhost:O1, localhost:O2, 127.0.0.1:O1, 127.0.0.1:O2} (a de Bruijn sequence on one
+#      association) and every ordered pair on a fresh association
+origin2 = UdpOrigin()
+MD = [('localhost', origin), ('localhost', origin2), ('127.0.0.1', origin), ('127.0.0.1', origin2)]
+
+def de_bruijn(k, n):
+    a = [0] * k * n
+    seq = []
+    def db(t, p):
+        if t > n:
+            if n % p == 0:
+                seq.extend(a[1:p + 1])
+        else:
+            a[t] = a[t - p]
+            db(t + 1, p)
+            for j in range(a[t - p] + 1, k):
+                a[t] = j
+                db(t + 1, t)
+    db(1, 1)
+    return seq + seq[:n - 1]
+
+class MultiSession:
+    def __init__(self, listener, cname):
+        p, ap, rud = hopA[cname]
+        self.listener = listener
+        self.ctrl = None
+        self.u = None
+        if listener == 'socks5':
+            self.ctrl, r = socks5_connect(ap['socks'], '0.0.0.0', 0, cmd=3, timeout=5)
+            if r['rep'] != 0 or len(r['reply']) < 10:
+                raise RuntimeError(f'udp associate refused: {r}')
+            self.relay = ('127.0.0.1', struct.unpack('>H', r['reply'][8:10])[0])
+            self.u = socket.socket(socket.AF_INET, socket.SOCK_DGRAM)
+            self.u.bind(('127.0.0.1', 0))
+        else:
+            self.ctrl, code, head, rest = http_connect(ap['http'], '0.0.0.0:0', extra_headers=b'Proxy-Protocol: udp\r\n', timeout=5)
+            if code != 200:
+                raise RuntimeError(f'http udp connect refused: {head[:80]}')
+    def send(self, host, port, payload, timeout=2.0):
+        if self.listener == 'socks5':
+            self.u.sendto(b'\0\0\0' + socks5_addr(host, port) + payload, self.relay)
+            self.u.settimeout(timeout)
+            try:
+                d, a = self.u.recvfrom(70000)
+            except OSError:
+                return None, None
+            label, body = socks_udp_decode(d)
+            return body, label
+        self.ctrl.sendall(rpfm_frame(0, host, port, payload))
+        r = rpfm_read(self.ctrl, timeout)
+        return (None, None) if r is None else (r[2], r[1])
+    def close(self):
+        for x in (self.u, self.ctrl):
+            if x is not None:
+                try:
+                    x.close()
+                except OSError:
+                    pass
+
+def run_multi(cell):
+    l, c = cell
+    out = []
+    seqs = [('one-association', de_bruijn(4, 3))] + [('fresh', [i, j]) for i in range(4) for j in range(4)]
+    for kind, seq in seqs:
+        try:
+            ms = MultiSession(l, c)
+        except Exception as e:
+            out.append((kind, seq[:3], 0, 'setup-failed', repr(e)))
+            continue
+        try:
+            for pos, di in enumerate(seq):
+                host, o = MD[di]
+                other = origin2 if o is origin else origin
+                p = tagged(60, f'multi-{l}/{c}/{kind}/{pos}')
+                try:
+                    reply, label = ms.send(host, o.port, p)
+                except OSError as e:
+                    out.append((kind, seq[max(0, pos - 2):pos + 1], pos, 'association-died', repr(e)))
+                    break
+                time.sleep(0.01)
+                here, there = o.count(p), other.count(p)
+                verdict = 'ok'
+                if there:
+                    verdict = 'delivered-to-another-destination'
+                elif here == 0:
+                    verdict = 'datagram-lost'
+                elif here != 1:
+                    verdict = f'delivered-{here}-times'
+                elif reply is None:
+                    verdict = 'no-reply'
+                elif reply != b'R' + p:
+                    verdict = 'payload-corrupted'
+                elif label is None or label.rsplit(':', 1)[1] != str(o.port):
+                    verdict = 'reply-labelled-with-another-address'
+                out.append((kind, [MD[x][0] + ':' + ('O1' if MD[x][1] is origin else 'O2') for x in seq[max(0, pos - 2):pos + 1]], pos, verdict, f'addressed {host}:{o.port} arrived there {here} elsewhere {there} reply={None if reply is None else reply[:20]} label={label}'))
+                if verdict != 'ok':
+                    break
+        finally:
+            ms.close()
+    return out
+
+multi_cells = [(l, c) for l in ('socks5', 'http-inline') for c in CONNECTORS]
+for cell, res in zip(multi_cells, run_parallel(multi_cells, run_multi, workers=5)):
+    l, c = cell
+    if isinstance(res, tuple):
+        machinery(f'multi {cell}: {res}')
+    for kind, window, pos, verdict, detail in res:
+        evals += 1
+        distinct.add((l, c, 'multi', verdict))
+        if verdict != 'ok':
+            chk.violation(f'udp.{l}->{c}', f'multi-destination:{verdict}', f'{l} -> {c}, {kind}, datagram #{pos} after destinations {window}: {verdict} ({detail})', {'listener': l, 'connector': c, 'kind': kind, 'last_destinations': window, 'position': pos})
+samples.append({'multi_destination': {'cells': len(multi_cells), 'de_bruijn_length': len(de_bruijn(4, 3)), 'fresh_pairs': 16}})
+
 # ---- contiguous payload-size sweep over the fragmenting path (quic datagrams): every residue of the fragment size
 def run_sweep(_):
     out = []
@@ -371,6 +486,7 @@ for c in CONNECTORS:
     if r:
         chk.violation(f'udp.reverse->{c}', 'receive-error-became-a-datagram', f'reverse -> {c}: after the client port was closed the origin received {len(r)} datagram(s) nobody sent: {[x[:16] for x in r]}', {'connector': c})
 
+origin2.stop()
 for p, _, _ in hopA.values():
     if not p.alive():
         chk.violation('process', 'proxy-died', f'hop A exited with {p.returncode()}: {p.log()[-300:]}', {})
@@ -382,6 +498,6 @@ origin.stop()
 if evals < 100 or len(distinct) < 10:
     machinery(f'vacuous: evals={evals} distinct={len(distinct)}')
 cov = {'evaluations': evals, 'distinct_nontrivial': len(distinct), 'transitions': evals, 'traces_validated_against_impl': evals,
-       'rule': 'real binaries (two hops): UDP listener {socks5 associate, reverse udp, http CONNECT+Proxy-Protocol: udp inline} x connector {direct, socks5, http inline, quic inline, quic datagrams} x destination {ipv4, ipv6, domain} (quick: rotation) x payload sizes x first/later datagram, lock-step with a tagging echo origin; 3 concurrent sessions x 4 rounds per listener x connector; closed client port per connector',
+       'rule': 'real binaries (two hops): UDP listener {socks5 associate, reverse udp, http CONNECT+Proxy-Protocol: udp inline} x connector {direct, socks5, http inline, quic inline, quic datagrams} x destination {ipv4, ipv6, domain} (quick: rotation) x payload sizes x first/later datagram, lock-step with a tagging echo origin; 3 concurrent sessions x 4 rounds per listener x connector; per-datagram destinations inside one association: all ordered triples over {localhost, 127.0.0.1} x {two origins} as a de Bruijn sequence plus all ordered pairs on fresh associations, for socks5 and CONNECT 0.0.0.0:0 x every connector; closed client port per connector',
        'cells': len(cells), 'sizes': SIZES, 'deadline_verdicts_rerun': retried[0], 'schedule_control': 'kernel', 'samples': samples}
 sys.exit(chk.finish('exploration', cov, ['loopback, lock-step (send one datagram, await its echo with a 3 s deadline): absent network loss holds', 'TPROXY UDP and the QUIC listener as first hop (needs a QUIC client) are not driven directly: QUIC paths are covered as second hop'], merge=False))
